@@ -250,7 +250,7 @@ def gen_c04(r):
     g["tracker_faults"] = []
     g["torrent_rel"] = r.choice(["../tdir/t.torrent", "../t.torrent", "sub/t.torrent", "ABS:abs/dir/t.torrent", "./t.torrent", "../a/b/../c/t.torrent"])
     if r.random() < 0.34 and not g["single"]:
-        bad = r.choice(["../evil.dat", "../../evil.dat", "sub/../../evil.dat", "/tmp/vh-evil-%d.dat" % r.getrandbits(30), "../tdir/evil.dat"])
+        bad = r.choice(["../evil.dat", "../../evil.dat", "sub/../../evil.dat", "/tmp/vh-evil-%d.dat" % r.getrandbits(30), "../tdir/evil.dat", "../../newdir/evil.dat", "../../escaped/deeper/evil.dat", "x/../../../made_outside/evil.dat"])
         g["files"][r.randrange(len(g["files"]))][0] = bad
         g["hostile_name"] = bad
         g["stall_s"] = 5
@@ -489,6 +489,7 @@ def e2e(cid, tier, seed, jobs, scale, outdir, m, log, asan=False):
             scs += [gen_c02_dead_peers(r) for _ in range(10)] + [gen_c02_all_incoming(r) for _ in range(20)]
     if cid == "C02" and not asan:
         scs += [gen_c02_incoming_churn(r), gen_c02_late_handshake(r), gen_c02_late_handshake(r), gen_c02_late_handshake(r)] + [gen_c02_same_address_twice(r) for _ in range(4)]
+        scs += [dict(gen_c02(r), stdout_closed=True) for _ in range(2 if tier == "quick" else 20)]
         if tier == "thorough":
             scs += [gen_c02_incoming_churn(r) for _ in range(8)] + [gen_c02_late_handshake(r) for _ in range(24)] + [gen_c02_same_address_twice(r) for _ in range(40)]
     if cid == "C06":
